@@ -554,8 +554,16 @@ func (r *CheckRun) report(aggs []*AggObl, freports []FuncReport, vacuity []strin
 				}
 			}
 		} else {
-			if inBase[id] {
-				lines = append(lines, fmt.Sprintf("VIOLATION property=%s replay=%s no-failing-input-found", r.Prop, replay))
+			confirmed := false
+			if a.failing != nil && a.failing.Kind == "safety" {
+				confirmed = r.tryReplay(a, replay)
+			}
+			if inBase[id] || confirmed {
+				suffix := " no-failing-input-found"
+				if confirmed {
+					suffix = ""
+				}
+				lines = append(lines, fmt.Sprintf("VIOLATION property=%s replay=%s%s", r.Prop, replay, suffix))
 				violations++
 				exit = 1
 			} else {
